@@ -66,7 +66,12 @@ namespace RecInt
     // Convert a GMP integer into a rmint
     template <size_t K, size_t MG>
     inline rmint<K, MG>& mpz_to_rmint(rmint<K, MG>& a, const mpz_class& b) {
-        mpz_to_ruint(a.Value, b);
+        // canonical residue taken over Z first: mpz_to_ruint keeps only the low 2^K bits of |b|
+        // (and the two's complement of a negative b), which is not b modulo p
+        mpz_class m, c;
+        ruint_to_mpz(m, rmint<K, MG>::p);
+        mpz_mod(c.get_mpz_t(), b.get_mpz_t(), m.get_mpz_t());
+        mpz_to_ruint(a.Value, c);
         return get_ready(a);
     }
 
